@@ -91,3 +91,22 @@ Definition func_terms : list (string * prog) := [
           (PRet (BOr (BAnd (BLen CEq 9) (BPrefixAt 0 ([239;187;191] ++ b "WEBVTT")%list))
                      (BAnd (BLen CEq 6) (BPrefixAt 0 (b "WEBVTT"))))))
 ].
+
+(* Detectors outside the GoLite fragment whose Go body is a single call of a same-package helper.  The model
+   (Model/Detect.hand_models) dispatches each of them to its model of that helper with the arguments below; the
+   translator reads the same shape off the current source (Gen/FuncTerms.gen_call_shapes) and
+   Proofs/TranslateP.call_shapes_agree compares the two. *)
+Definition model_call_shapes : list (string * list string) := [
+  ("JSON", ["jsonHelper"; "raw"; "limit"; "json.QueryNone"; "json.TokObject | json.TokArray"]);
+  ("GeoJSON", ["jsonHelper"; "raw"; "limit"; "json.QueryGeo"; "json.TokObject"]);
+  ("HAR", ["jsonHelper"; "raw"; "limit"; "json.QueryHAR"; "json.TokObject"]);
+  ("GLTF", ["jsonHelper"; "raw"; "limit"; "json.QueryGLTF"; "json.TokObject"]);
+  ("Csv", ["sv"; "raw"; "','"; "limit"]);
+  ("Tsv", ["sv"; "raw"; "'\\t'"; "limit"]);
+  ("Docx", ["zipContains"; "raw"; "[]byte('word/')"; "true"]);
+  ("Xlsx", ["zipContains"; "raw"; "[]byte('xl/')"; "true"]);
+  ("Pptx", ["zipContains"; "raw"; "[]byte('ppt/')"; "true"]);
+  ("Jar", ["zipContains"; "raw"; "[]byte('META-INF/MANIFEST.MF')"; "false"]);
+  ("Mkv", ["isMatroskaFileTypeMatched"; "raw"; "'matroska'"]);
+  ("WebM", ["isMatroskaFileTypeMatched"; "raw"; "'webm'"])
+].
